@@ -26,15 +26,17 @@ def PlainPut (p : PutReq) : Prop :=
 `mod(k) = n` on the key the ops work on, no `range_end` anywhere, the Get is plain, the put carries no
 flags and HAS A VALUE (a write without a value is refused by the backend before a revision is dealt, /repo
 f2a549c), a guarded delete has a positive expectation. (Lease, limit / sort order / `serializable` of the
-point Get, the delete's `prev_kv` are free.) -/
+point Get are free; the delete op does NOT ask for `prev_kv` — /repo c09cadc: the supported delete shapes are
+answered with a range response, a delete with `prev_kv` is another shape and is refused.) -/
 inductive Canonical : TxnReq → Prop where
   | create (c : Compare) (p : PutReq) : ModCmp c p.key 0 → PlainPut p → p.val ≠ [] →
       Canonical { compare := [c], success := [.put p], failure := [] }
   | update (c : Compare) (p : PutReq) (g : RangeReq) (n : Int) : ModCmp c p.key n → PlainPut p → p.val ≠ [] →
       PlainGet g p.key → Canonical { compare := [c], success := [.put p], failure := [.range g] }
   | gdelete (c : Compare) (d : DelReq) (g : RangeReq) (n : Int) : ModCmp c d.key n → 0 < n → d.key ≠ [] →
-      d.rangeEnd = [] → PlainGet g d.key → Canonical { compare := [c], success := [.del d], failure := [.range g] }
-  | udelete (g : RangeReq) (d : DelReq) : d.key ≠ [] → d.rangeEnd = [] → PlainGet g d.key →
+      d.rangeEnd = [] → d.prevKv = false → PlainGet g d.key →
+      Canonical { compare := [c], success := [.del d], failure := [.range g] }
+  | udelete (g : RangeReq) (d : DelReq) : d.key ≠ [] → d.rangeEnd = [] → d.prevKv = false → PlainGet g d.key →
       Canonical { compare := [], success := [.range g, .del d], failure := [] }
 
 theorem isModOn_iff {c : Compare} {k : Bytes} : c.isModOn k = true ↔ ∃ n, ModCmp c k n := by
@@ -74,16 +76,35 @@ theorem classify_update {c : Compare} {p : PutReq} {g : RangeReq} {n : Int} (h :
   classify_update' h hp.2.1 hp.2.2.1 hp.2.2.2 hg
 
 theorem classify_gdelete {c : Compare} {d : DelReq} {g : RangeReq} {n : Int} (h : ModCmp c d.key n)
-    (h0 : 0 < n) (he : d.rangeEnd = []) (hg : PlainGet g d.key) :
+    (h0 : 0 < n) (he : d.rangeEnd = []) (hp : d.prevKv = false) (hg : PlainGet g d.key) :
     classify { compare := [c], success := [.del d], failure := [.range g] } = .delete n d.key true := by
   have hm := isModOn_iff.mpr ⟨n, h⟩
   have hgg := isPlainGet_iff.mpr hg
-  simp [classify, isCreate, isDelete, hm, hgg, he, h0, h.2.2.2.2]
+  simp [classify, isCreate, isDelete, DelReq.isPoint, hm, hgg, he, hp, h0, h.2.2.2.2]
 
-theorem classify_udelete {g : RangeReq} {d : DelReq} (he : d.rangeEnd = []) (hg : PlainGet g d.key) :
+theorem classify_udelete {g : RangeReq} {d : DelReq} (he : d.rangeEnd = []) (hp : d.prevKv = false)
+    (hg : PlainGet g d.key) :
     classify { compare := [], success := [.range g, .del d], failure := [] } = .delete 0 d.key false := by
   have hgg := isPlainGet_iff.mpr hg
-  simp [classify, isCreate, isDelete, hgg, he]
+  simp [classify, isCreate, isDelete, DelReq.isPoint, hgg, he, hp]
+
+/-- /repo c09cadc: a delete op that asks for `prev_kv` is not a point delete — both delete shapes with it are
+recognised by NO recogniser (whatever the compare, the expectation, the Get, the `range_end`) -/
+theorem isDelete_prevKv_guarded {c : Compare} {d : DelReq} {g : RangeReq} (hp : d.prevKv = true) :
+    isDelete { compare := [c], success := [.del d], failure := [.range g] } = none := by
+  simp [isDelete, DelReq.isPoint, hp]
+
+theorem isDelete_prevKv_unguarded {d : DelReq} {g : RangeReq} (hp : d.prevKv = true) :
+    isDelete { compare := [], success := [.range g, .del d], failure := [] } = none := by
+  simp [isDelete, DelReq.isPoint, hp]
+
+theorem classify_gdelete_prevKv {c : Compare} {d : DelReq} {g : RangeReq} (hp : d.prevKv = true) :
+    classify { compare := [c], success := [.del d], failure := [.range g] } = .unsupported := by
+  simp [classify, isCreate, isDelete, isUpdate, isCompact, DelReq.isPoint, hp]
+
+theorem classify_udelete_prevKv {d : DelReq} {g : RangeReq} (hp : d.prevKv = true) :
+    classify { compare := [], success := [.range g, .del d], failure := [] } = .unsupported := by
+  simp [classify, isCreate, isDelete, isUpdate, isCompact, DelReq.isPoint, hp]
 
 /-! ### inversion: what the recognisers accept is well-shaped -/
 
@@ -121,28 +142,28 @@ theorem isUpdate_inv {t : TxnReq} {n : Int} {k v : Bytes} {l : Int} (h : isUpdat
 
 theorem isDelete_inv {t : TxnReq} {n : Int} {k : Bytes} {gd : Bool} (h : isDelete t = some (n, k, gd)) :
     (gd = false ∧ n = 0 ∧ ∃ g d, t = { compare := [], success := [.range g, .del d], failure := [] } ∧
-      d.key = k ∧ d.rangeEnd = [] ∧ PlainGet g d.key) ∨
+      d.key = k ∧ d.rangeEnd = [] ∧ d.prevKv = false ∧ PlainGet g d.key) ∨
     (gd = true ∧ ∃ c g d, t = { compare := [c], success := [.del d], failure := [.range g] } ∧
-      d.key = k ∧ ModCmp c d.key n ∧ 0 < n ∧ d.rangeEnd = [] ∧ PlainGet g d.key) := by
+      d.key = k ∧ ModCmp c d.key n ∧ 0 < n ∧ d.rangeEnd = [] ∧ d.prevKv = false ∧ PlainGet g d.key) := by
   unfold isDelete at h
   split at h
   · rename_i _ _ _ g d h1 h2 h3
     split at h
     · rename_i hc
       simp only [Option.some.injEq, Prod.mk.injEq] at h
-      simp only [Bool.and_eq_true, List.isEmpty_iff] at hc
+      simp only [DelReq.isPoint, Bool.and_eq_true, List.isEmpty_iff, Bool.not_eq_true'] at hc
       left
-      exact ⟨h.2.2.symm, h.1.symm, g, d, by cases t; simp_all, h.2.1, hc.1, isPlainGet_iff.mp hc.2⟩
+      exact ⟨h.2.2.symm, h.1.symm, g, d, by cases t; simp_all, h.2.1, hc.1.1, hc.1.2, isPlainGet_iff.mp hc.2⟩
     · cases h
   · rename_i _ _ _ c g d h1 h2 h3
     split at h
     · rename_i hc
       simp only [Option.some.injEq, Prod.mk.injEq] at h
-      simp only [Bool.and_eq_true, List.isEmpty_iff, decide_eq_true_eq] at hc
-      obtain ⟨⟨⟨he, hm⟩, hpos⟩, hg⟩ := hc
+      simp only [DelReq.isPoint, Bool.and_eq_true, List.isEmpty_iff, decide_eq_true_eq, Bool.not_eq_true'] at hc
+      obtain ⟨⟨⟨⟨he, hpk⟩, hm⟩, hpos⟩, hg⟩ := hc
       obtain ⟨n', hn⟩ := isModOn_iff.mp hm
       right
-      refine ⟨h.2.2.symm, c, g, d, by cases t; simp_all, h.2.1, ⟨hn.1, hn.2.1, hn.2.2.1, hn.2.2.2.1, h.1⟩, ?_, he,
+      refine ⟨h.2.2.symm, c, g, d, by cases t; simp_all, h.2.1, ⟨hn.1, hn.2.1, hn.2.2.1, hn.2.2.2.1, h.1⟩, ?_, he, hpk,
         isPlainGet_iff.mp hg⟩
       rw [← h.1]; exact hpos
     · cases h
@@ -936,7 +957,7 @@ theorem sound_update_in (c : Cfg) (s : BState) (m : Mvcc) (cm : Compare) (p : Pu
 
 theorem sound_gdelete_in (c : Cfg) (s : BState) (m : Mvcc) (cm : Compare) (d : DelReq) (g : RangeReq) (n : Int)
     (hc : ModCmp cm d.key n) (h0 : 0 < n) (hle : n ≤ s.dealt) (hk : d.key ≠ []) (he : d.rangeEnd = [])
-    (hg : PlainGet g d.key) (hw : WHyp c s d.key) (ha : AbsAt c s m d.key) :
+    (hp : d.prevKv = false) (hg : PlainGet g d.key) (hw : WHyp c s d.key) (ha : AbsAt c s m d.key) :
     Agree c s m { compare := [cm], success := [.del d], failure := [.range g] } := by
   have hb := hw.bound
   have hu : toU64 n = n.toNat := toU64_of_nonneg (by omega) (by omega)
@@ -951,7 +972,7 @@ theorem sound_gdelete_in (c : Cfg) (s : BState) (m : Mvcc) (cm : Compare) (d : D
           else .ok { ok := false, hdr := max (s.dealt + 1) cmod,
                      resps := [.range (max (s.dealt + 1) cmod) [(d.key, cv, cmod)] 0 false], wrote := false } := by
     rw [shimTxn_cases]
-    rw [classify_gdelete hc h0 he hg]
+    rw [classify_gdelete hc h0 he hp hg]
     simp only
     rw [shimDelete_fst c s n d.key, hu, doDelete_fst c s d.key n.toNat hw hexp]
     cases curKv c s d.key with
@@ -985,7 +1006,7 @@ theorem sound_gdelete_in (c : Cfg) (s : BState) (m : Mvcc) (cm : Compare) (d : D
 
 /-- the shim's answer to the unguarded delete (a missing key: `Succeeded = true`, kv.go `!guarded`) -/
 theorem shim_udelete (c : Cfg) (s : BState) (g : RangeReq) (d : DelReq) (he : d.rangeEnd = [])
-    (hg : PlainGet g d.key) (hw : WHyp c s d.key) :
+    (hp : d.prevKv = false) (hg : PlainGet g d.key) (hw : WHyp c s d.key) :
     (shimTxn c s { compare := [], success := [.range g, .del d], failure := [] }).1 =
       match curKv c s d.key with
       | none => .ok { ok := true, hdr := s.dealt + 1, resps := [.range (s.dealt + 1) [] 0 false], wrote := false }
@@ -1003,7 +1024,7 @@ theorem shim_udelete (c : Cfg) (s : BState) (g : RangeReq) (d : DelReq) (he : d.
       obtain ⟨k', cv, cmod⟩ := kv
       simp
   rw [shimTxn_cases]
-  rw [classify_udelete he hg]
+  rw [classify_udelete he hp hg]
   simp only
   generalize hd : shimDelete c s 0 d.key = pr at hfst
   obtain ⟨r, s'⟩ := pr
@@ -1016,10 +1037,10 @@ theorem shim_udelete (c : Cfg) (s : BState) (g : RangeReq) (d : DelReq) (he : d.
     rfl
 
 theorem sound_udelete (c : Cfg) (s : BState) (m : Mvcc) (g : RangeReq) (d : DelReq)
-    (hk : d.key ≠ []) (he : d.rangeEnd = []) (hg : PlainGet g d.key) (hw : WHyp c s d.key)
+    (hk : d.key ≠ []) (he : d.rangeEnd = []) (hp : d.prevKv = false) (hg : PlainGet g d.key) (hw : WHyp c s d.key)
     (ha : AbsAt c s m d.key) :
     Agree c s m { compare := [], success := [.range g, .del d], failure := [] } := by
-  have hshim := shim_udelete c s g d he hg hw
+  have hshim := shim_udelete c s g d he hp hg hw
   have href := ref_udelete m g d hk he hg ha.nodup
   rcases abs_cases ha with ⟨hcur, hget⟩ | ⟨e, hget, hcur, hek, _⟩
   · rw [hcur] at hshim
@@ -1083,18 +1104,19 @@ theorem sound_update (c : Cfg) (s : BState) (m : Mvcc) (cm : Compare) (p : PutRe
 
 theorem sound_gdelete (c : Cfg) (s : BState) (m : Mvcc) (cm : Compare) (d : DelReq) (g : RangeReq) (n : Int)
     (hc : ModCmp cm d.key n) (h0 : 0 < n) (hhi : n < 2 ^ 63) (h63 : s.dealt + 1 < 2 ^ 63) (hk : d.key ≠ [])
-    (he : d.rangeEnd = []) (hg : PlainGet g d.key) (hw : WHyp c s d.key) (ha : AbsAt c s m d.key) :
+    (he : d.rangeEnd = []) (hp : d.prevKv = false) (hg : PlainGet g d.key) (hw : WHyp c s d.key)
+    (ha : AbsAt c s m d.key) :
     (∃ e, (shimTxn c s { compare := [cm], success := [.del d], failure := [.range g] }).1 = .error e) ∨
     Agree c s m { compare := [cm], success := [.del d], failure := [.range g] } := by
   by_cases hin : n ≤ s.dealt
-  · exact .inr (sound_gdelete_in c s m cm d g n hc h0 hin hk he hg hw ha)
+  · exact .inr (sound_gdelete_in c s m cm d g n hc h0 hin hk he hp hg hw ha)
   · have hfar := toU64_far (n := n) (by omega) hhi h63 (dealt := s.dealt) (by omega)
     have hshim : (shimTxn c s { compare := [cm], success := [.del d], failure := [.range g] }).1 =
         match curKv c s d.key with
         | none => .ok { ok := false, hdr := s.dealt + 1, resps := [.range (s.dealt + 1) [] 0 false], wrote := false }
         | some _ => .error (.backend .drift) := by
       rw [shimTxn_cases]
-      rw [classify_gdelete hc h0 he hg]
+      rw [classify_gdelete hc h0 he hp hg]
       simp only
       rw [shimDelete_fst c s n d.key, doDelete_far c s d.key (toU64 n) hfar]
       cases curKv c s d.key <;> rfl
@@ -1187,11 +1209,11 @@ theorem txn_cases (t : TxnReq) (hreq : ReqOK t) :
     cases h2 : isDelete t with
     | some x =>
       obtain ⟨n, k, gd⟩ := x
-      rcases isDelete_inv h2 with ⟨_, _, g, d, rfl, _, he, hg⟩ | ⟨_, cm, g, d, rfl, _, hc, h0, he, hg⟩
+      rcases isDelete_inv h2 with ⟨_, _, g, d, rfl, _, he, hp, hg⟩ | ⟨_, cm, g, d, rfl, _, hc, h0, he, hp, hg⟩
       · have hk : d.key ≠ [] := hreq.skeys (.del d) (by simp)
-        exact .inr (.inr (.inr (.inr (.udelete g d hk he hg))))
+        exact .inr (.inr (.inr (.inr (.udelete g d hk he hp hg))))
       · have hk : d.key ≠ [] := hreq.skeys (.del d) (by simp)
-        exact .inr (.inr (.inr (.inr (.gdelete cm d g n hc h0 hk he hg))))
+        exact .inr (.inr (.inr (.inr (.gdelete cm d g n hc h0 hk he hp hg))))
     | none =>
       cases h3 : isUpdate t with
       | some x =>
@@ -1228,11 +1250,11 @@ theorem canonical_sound (c : Cfg) (s : BState) (m : Mvcc) (t : TxnReq) (hcan : C
     have hi := hints cm (by simp)
     rw [hc.2.2.2.2] at hi
     exact sound_update c s m cm p g n hc hi.1 hi.2 h63 hp hv hg hw ha
-  | gdelete cm d g n hc h0 hk he hg =>
+  | gdelete cm d g n hc h0 hk he hp hg =>
     have hi := hints cm (by simp)
     rw [hc.2.2.2.2] at hi
-    exact sound_gdelete c s m cm d g n hc h0 hi.2 h63 hk he hg hw ha
-  | udelete g d hk he hg => exact .inr (sound_udelete c s m g d hk he hg hw ha)
+    exact sound_gdelete c s m cm d g n hc h0 hi.2 h63 hk he hp hg hw ha
+  | udelete g d hk he hp hg => exact .inr (sound_udelete c s m g d hk he hp hg hw ha)
 
 theorem getInternal_empty (c : Cfg) (k : Bytes) (R : Nat) : getInternal c [] k R = none := by
   have hlim : ∀ lim, applyLimit c.q lim [] = [] := by
